@@ -91,12 +91,12 @@ fn one(ctx: &Ctx, rep: &mut Report, id: usize, cfg: Cfg, k: usize) {
     };
 
     // (a) honest
-    agree(rep, "honest", apply_mutation(&case, &parts, None, &Mutation { name: "id".into(), alter: Alter::Ctx(case.ctx.clone()), noop: true }), false);
+    agree(rep, "honest", apply_mutation(&case, &proof, &parts, None, &Mutation { name: "id".into(), alter: Alter::Ctx(case.ctx.clone()), noop: true }), false);
     // (b) every single-element alteration (one replacement per position in quick, all in thorough)
     if cfg.mn() > 1 {
         let density = if ctx.thorough() { 3 } else { 1 };
         for mu in mutations(&case, &parts, other.as_ref(), density, &mut rng) {
-            let alt = apply_mutation(&case, &parts, None, &mu);
+            let alt = apply_mutation(&case, &proof, &parts, None, &mu);
             agree(rep, &mu.name, alt, !mu.noop);
         }
     } else {
@@ -105,7 +105,7 @@ fn one(ctx: &Ctx, rep: &mut Report, id: usize, cfg: Cfg, k: usize) {
             if matches!(mu.alter, Alter::Proof(_)) {
                 continue;
             }
-            let alt = apply_mutation(&case, &parts, None, &mu);
+            let alt = apply_mutation(&case, &proof, &parts, None, &mu);
             agree(rep, &mu.name, alt, !mu.noop);
         }
     }
@@ -122,7 +122,7 @@ fn one(ctx: &Ctx, rep: &mut Report, id: usize, cfg: Cfg, k: usize) {
             *l = enc(&<P as Gx>::random_point(&mut rng));
             *r = enc(&<P as Gx>::random_point(&mut rng));
         }
-        agree(rep, "random well-formed proof", apply_mutation(&case, &parts, None, &Mutation { name: "rnd".into(), alter: Alter::Proof(p), noop: false }), true);
+        agree(rep, "random well-formed proof", apply_mutation(&case, &proof, &parts, None, &Mutation { name: "rnd".into(), alter: Alter::Proof(p), noop: false }), true);
     }
     // (d) dishonest provers (reference prover driven off the honest path); need at least one folding round
     if cfg.mn() > 1 {
